@@ -27,7 +27,12 @@ def _gen_and_execute(arg):
     mod = importlib.import_module(modname)
     t = time.monotonic()
     sc = mod.generate(seed, tier)
-    res = mod.execute(sc)
+    try:
+        res = mod.execute(sc)
+    except BaseException as e:  # noqa
+        import traceback
+
+        return {"seed": seed, "harness_error": "exception in run: " + "".join(traceback.format_exception(e))[-3000:]}
     res["seed"] = seed
     res["wall_s"] = round(time.monotonic() - t, 3)  # reporting only; never read by the run itself
     return res
@@ -110,7 +115,7 @@ def main(argv=None):
         lines.append(f"HARNESS-ERROR nondeterministic-run property={prop} seeds={nondet}")
         exit_code = 2
     for r in harness[:5]:
-        lines.append(f"HARNESS-ERROR property={prop} {str(r['harness_error'])[:400]}")
+        lines.append(f"HARNESS-ERROR property={prop} seed={r.get('seed')} " + " | ".join(str(r['harness_error']).strip().splitlines()[-6:])[:900])
     if harness:
         exit_code = 2
 
